@@ -44,9 +44,12 @@ def check(run):
         b2 = run.borrow("C05", why="fusing rules that differ in a verdict-relevant field makes the verdict depend on "
                                    "which other rules are present")
         run.guard("C04.via.C05.1.fusion-key", cfg, lambda: _C05.rule_key(b2, F, cfg))
+        run.guard("C04.via.C05.4.disjunction", cfg, lambda: _C05.rule_disjunction(b2, F, cfg))
         from . import C01 as _C01   # lazy: C01 borrows from this module
         b3 = run.borrow("C01", why="a rule added later must be stored under its own tokens, without disturbing earlier buckets")
         run.guard("C04.via.C01.1.token-source", cfg, lambda: _C01.rule_store(b3, F, cfg))
+        b3i = run.borrow("C01", why="an exception (or $important rule) that differs from an earlier rule only by its tag must not be dropped as a duplicate: the untagged twin is the one that is active")
+        run.guard("C04.via.C01.7.rule-identity", cfg, lambda: _C01.rule_identity(b3i, F, cfg))
 
 
 def rule_routing(run, F, cfg):
